@@ -69,4 +69,21 @@ def loadCheckpointApi {D A : Type} (sp : Spec D A) (cls : String) (dim : Nat) (t
 def withDefault {D A : Type} (sp : Spec D A) (dim : Nat) : Spec D A :=
   { sp with init := fun o => sp.init (defaultPoint dim o), initAcc := fun o => sp.initAcc (defaultPoint dim o) }
 
+/-! ## `Samples.burnthin(Nb, Nt)` (`cuqi/samples/_samples.py`): how the stateful interface discards burn-in -/
+
+/-- Python `l[0::nt]` for `nt ≥ 1`: the first entry, then every `nt`-th -/
+def sliceStep {α : Type} (nt : Nat) : List α → List α
+  | [] => []
+  | a :: as => a :: sliceStep nt (as.drop (nt - 1))
+termination_by l => l.length
+decreasing_by simp [List.length_drop]; omega
+
+/-- `Samples.burnthin(Nb, Nt)` on the chain `l` (non-negative `Nb`): `none` = `ValueError`
+    (`Nb >= Ns`: "Number of burn-in … is greater than or equal number of samples", or slice step zero);
+    otherwise `samples[..., Nb::Nt]` -/
+def burnthin {α : Type} (nb nt : Nat) (l : List α) : Option (List α) :=
+  if nb ≥ l.length then Option.none
+  else if nt = 0 then Option.none
+  else some (sliceStep nt (l.drop nb))
+
 end CuqiVerif.C14
